@@ -192,20 +192,17 @@ COMMON_ASSUME = ["Kani/CBMC/CaDiCaL verdicts", "the KFS model (harness/kfs.rs): 
 RELY = "rely/guarantee: between any two calls of the operation the shared directories move to any state other participants' protocol steps can produce"
 
 prop("C01", ["proto_glue", "plain_get_env", "raw_insert_or_update_basic", "raw_insert_or_touch_basic", "raw_ops_sanity_twin"],
-     ["plain_set_env", "plain_put_env", "sharded_get_01", "sharded_set_absent_env", "stack_get_w1r1_nock", "stack_gou_w1r1_miss", "stack_gou_w1r1_sec", "stack_gou_w2r1_miss", "stack_gou_w1r1_env_sec", "stack_set_temp_w1r1", "plain_set_seq", "plain_put_seq"],
-     outside=["byte-granular reads (values are abstracted to content ids; 'complete' is set only by the last write)", "NFS close-to-open semantics",
-              "peers that violate the protocol"], assumptions=COMMON_ASSUME + [RELY])
+     ["plain_set_env", "plain_put_env", "sharded_get_01", "sharded_set_absent_env", "stack_get_w1r1_nock", "stack_set_temp_w1r1", "plain_set_seq", "plain_put_seq"],
+     outside=["byte-granular reads (values are abstracted to content ids; 'complete' is set only by the last write)", "NFS close-to-open semantics", "peers that violate the protocol"], assumptions=COMMON_ASSUME + [RELY])
 prop("C02", ["proto_glue", "raw_insert_or_update_basic", "raw_insert_or_touch_basic", "c02_cleanup_temp_by_age", "c02_cleanup_temp_missing_dir", "raw_apply_update_evict_a_moveback_b", "raw_ops_sanity_twin"],
-     ["plain_set_seq", "plain_put_seq", "plain_set_fault", "sharded_set_absent", "sharded_put_in_secondary", "stackc_set_w1r1_cp", "stackc_set_temp_w1r1_cp", "stackc_gou_w1r1_miss_cp", "stack_gou_w1r1_miss", "stack_set_temp_w1r1"],
-     outside=["power-loss reordering of un-fsynced directory updates (documented: directories are not fsynced)",
-              "validity is asserted at every call boundary of KFS, i.e. at every point where the process can die between two system calls"],
+     ["plain_set_seq", "plain_put_seq", "plain_set_fault", "sharded_set_absent", "sharded_put_in_secondary", "stackc_set_w1r1_cp", "stackc_set_temp_w1r1_cp", "stack_set_temp_w1r1"],
+     outside=["power-loss reordering of un-fsynced directory updates (documented: directories are not fsynced)", "validity is asserted at every call boundary of KFS, i.e. at every point where the process can die between two system calls"],
      assumptions=COMMON_ASSUME)
-prop("C03", ["stack_ops_glue", "stack_finalize_glue", "stack_gou_glue", "raw_insert_or_update_basic", "raw_insert_or_touch_basic", "stackc_set_temp_w1r1", "stackc_set_temp_w1r1_fault", "stack_ops_sanity_twin"],
-     ["stackc_put_temp_w1r1", "stackc_put_temp_w1r1_fault", "stackc_set_w1r1", "stackc_set_w1r1_fault", "stackc_put_w1r1", "stackc_gou_w1r1_miss", "stackc_gou_w1r1_sec", "stackc_gou_w1r1_fault_miss", "stackc_gou_w1r1_fault_sec", "stackc_gou_w1r1_nosync_miss",
-      "stack_set_temp_w1r1", "stack_set_temp_w1r1_fault", "stack_set_w1r1", "stack_put_temp_w2r0", "stack_gou_w2r1_miss"],
+prop("C03", ["stack_ops_glue", "stack_finalize_glue", "raw_insert_or_update_basic", "raw_insert_or_touch_basic", "stackc_set_temp_w1r1", "stackc_set_temp_w1r1_fault", "stack_ops_sanity_twin"],
+     ["stackc_put_temp_w1r1", "stackc_put_temp_w1r1_fault", "stackc_set_w1r1", "stackc_set_w1r1_fault", "stackc_put_w1r1", "stack_set_temp_w1r1", "stack_set_temp_w1r1_fault", "stack_set_w1r1", "stack_put_temp_w2r0"],
      outside=["whether the kernel's fsync is durable", "value sizes (content ids)"], assumptions=COMMON_ASSUME)
-prop("C04", ["proto_glue", "stack_gou_glue", "plain_get_env", "plain_touch_env", "raw_insert_or_touch_basic", "raw_touch_basic", "raw_ops_sanity_twin"],
-     ["plain_put_env", "plain_set_env", "plain_put_seq", "stackc_put_w1r1", "stackc_ensure_w1r0_putonly_miss", "stackc_ensure_w1r1_miss", "stack_put_w1r1", "stack_ensure_w1r0_putonly_miss"],
+prop("C04", ["proto_glue", "plain_get_env", "plain_touch_env", "raw_insert_or_touch_basic", "raw_touch_basic", "raw_ops_sanity_twin"],
+     ["plain_put_env", "plain_set_env", "plain_put_seq", "stackc_put_w1r1", "stack_put_w1r1"],
      outside=["linearizability is decided as a forward simulation per operation (linearization point = the publishing / opening call), not by enumerating histories"],
      assumptions=COMMON_ASSUME + [RELY])
 prop("C05", ["proto_glue", "plain_get_env", "plain_touch_env", "plain_write_missing_dir_env", "raw_apply_update_evict_a_moveback_b", "raw_collect_a_temp", "raw_ops_sanity_twin"],
@@ -215,16 +212,12 @@ prop("C06", ["plain_get_env", "plain_touch_env", "plain_ops_sanity_twin"],
      ["plain_set_env", "plain_put_env", "sharded_set_absent_env"],
      outside=["blocking inside the kernel", "step bounds are asserted as call-count constants under every environment answer, with unwinding assertions on"],
      assumptions=COMMON_ASSUME + [RELY])
-prop("C07", ["c07_prune_glue", "c07_apply_glue", "raw_collect_a_temp", "raw_collect_a_app", "raw_collect_empty_temp", "raw_apply_update_evict_a_moveback_b",
-             "raw_ops_sanity_twin"],
+prop("C07", ["c07_prune_glue", "c07_apply_glue", "raw_collect_a_temp", "raw_collect_a_app", "raw_collect_empty_temp", "raw_apply_update_evict_a_moveback_b", "raw_ops_sanity_twin"],
      ["raw_collect_ab_sub", "raw_prune_pieces_dotfile_and_a", "c08_n2", "c08_n3_evicted"],
-     outside=["listings of more than 3 entries; plans of more than 2 entries", "the composition prune = apply_update . planner . listing is decided on the MIR of prune "
-              "with the three callees uninterpreted (engine M); each callee by its own harnesses; the planner itself is C08"],
+     outside=["listings of more than 3 entries; plans of more than 2 entries", "the composition prune = apply_update . planner . listing is decided on the MIR of prune ", "with the three callees uninterpreted (engine M); each callee by its own harnesses; the planner itself is C08"],
      assumptions=COMMON_ASSUME)
 prop("C08", ["c08_planner", "c08_n0", "c08_n1", "c08_n2", "c08_n2_fullrank", "c08_sanity_twin"], ["c08_n3_evicted", "c08_spec_planner_n2", "c08_spec_planner_n3", "c08_n4_evicted"],
-     outside=["n > 2 for the contents of to_move_back; n > 4 for to_evict (CBMC runs out of memory on Vec::drain's memmove with a symbolic length; measured)",
-              "rank domains other than {0..3} / u8; the planner only uses ranks through Ord",
-              "tie order is left free by the oracle (the statement says 'under some ordering of equally ranked entries')"],
+     outside=["n > 2 for the contents of to_move_back; n > 4 for to_evict (CBMC runs out of memory on Vec::drain's memmove with a symbolic length; measured)", "rank domains other than {0..3} / u8; the planner only uses ranks through Ord", "tie order is left free by the oracle (the statement says 'under some ordering of equally ranked entries')"],
      assumptions=["Kani/CBMC model of alloc::vec and core::slice::sort is faithful", "CaDiCaL verdicts"] + VEC_STUBS)
 prop("C09", ["proto_glue", "plain_get_seq", "plain_touch_seq", "raw_insert_or_update_basic", "raw_insert_or_touch_basic", "raw_touch_basic", "raw_ops_sanity_twin"],
      ["plain_set_seq", "plain_put_seq", "sharded_get_01", "raw_apply_update_evict_a_moveback_b"],
@@ -234,44 +227,37 @@ prop("C10", ["c10_trigger", "plain_ops_sanity_twin"], ["plain_set_seq", "plain_p
      assumptions=COMMON_ASSUME + ["after maintenance at most `capacity` files remain (C07)"])
 prop("C11", ["proto_glue", "plain_get_seq", "plain_touch_seq", "raw_insert_or_update_basic", "raw_insert_or_touch_basic", "raw_ops_sanity_twin"],
      ["plain_set_seq", "plain_put_seq", "sharded_get_01", "sharded_get_10", "sharded_touch_01", "sharded_set_absent", "sharded_set_in_secondary", "sharded_put_in_secondary", "stack_set_w1r1"],
-     outside=["histories are covered as one inductive step from an arbitrary valid state (simulation relation), not enumerated",
-              "in-memory load estimates and the trigger countdown are arbitrary in the pre-state (this is what several handles amount to)"],
+     outside=["histories are covered as one inductive step from an arbitrary valid state (simulation relation), not enumerated", "in-memory load estimates and the trigger countdown are arbitrary in the pre-state (this is what several handles amount to)"],
      assumptions=COMMON_ASSUME)
 prop("C12", ["proto_glue", "c12_mapping", "c12_constants", "c12_new_clamps", "sharded_ops_sanity_twin"],
      ["c12_format_id", "sharded_get_01", "sharded_get_10", "sharded_touch_01", "sharded_set_absent", "sharded_set_in_secondary", "sharded_put_in_secondary"],
      outside=["directory names for shard indices >= 2^20", "probe order is checked with the two candidate ids fixed to (0,1) and (1,0)"],
      assumptions=COMMON_ASSUME + ["z3 and cvc5 agree (both consulted on every obligation)"])
-prop("C13", ["stack_ops_glue", "stack_gou_glue", "stack_get_w1r1_nock", "stack_touch_w1r2", "stack_set_w0r1", "stackc_set_w1r1", "stack_ops_sanity_twin"],
-     ["stackc_touch_w1r2", "stackc_get_w1r2_bytes", "stackc_put_w1r1", "stackc_set_temp_w1r1", "stackc_put_temp_w1r1", "stackc_ensure_w1r1", "stackc_ensure_w1r1_miss", "stackc_gou_w1r1", "stackc_gou_w1r1_miss", "stackc_gou_w1r1_sec", "stackc_gou_w1r1_pri", "stackc_gou_w1r1_env_sec", "stackc_gou_w1r1_env_miss",
-      "stack_ensure_w1r1_miss", "stack_ensure_w1r1_sec", "stack_gou_w1r1_miss", "stack_gou_w1r1_sec", "stack_gou_w1r1_pri", "stack_gou_w0r1_sec", "stack_gou_w0r1_miss", "stack_gou_w2r1_miss", "stack_gou_w2r1_sec", "stack_set_w1r1", "stack_put_w1r1", "stack_set_temp_w1r1", "stack_put_temp_w2r0", "stack_put_temp_w0r1", "stack_get_w1r2_bytes", "stack_get_w0r2_bytes", "stack_get_w1r0_nock", "stack_get_w0r1_nock", "stack_gou_w1r1_env_sec", "readonly_builder_equiv"],
+prop("C13", ["stack_ops_glue", "stack_get_w1r1_nock", "stack_touch_w1r2", "stack_set_w0r1", "stackc_set_w1r1", "stack_ops_sanity_twin"],
+     ["stackc_touch_w1r2", "stackc_get_w1r2_bytes", "stackc_put_w1r1", "stackc_set_temp_w1r1", "stackc_put_temp_w1r1", "stack_set_w1r1", "stack_put_w1r1", "stack_set_temp_w1r1", "stack_put_temp_w2r0", "stack_put_temp_w0r1", "stack_get_w1r2_bytes", "stack_get_w0r2_bytes", "stack_get_w1r0_nock", "stack_get_w0r1_nock", "readonly_builder_equiv"],
      outside=["stack shapes other than those listed (writer in {none, plain, sharded} x up to two plain readers)"], assumptions=COMMON_ASSUME)
-prop("C14", ["stack_ops_glue", "stack_gou_glue", "stack_get_w1r2_bytes", "stack_get_w1r1_nock", "stack_ops_sanity_twin"],
-     ["stackc_get_w1r2_bytes", "stackc_gou_w1r1_bytes", "stackc_gou_w1r1_bytes_sec", "stackc_gou_w1r1_bytes_pri_same", "stackc_gou_w1r1_bytes_pri_diff", "stackc_gou_w1r0_bytes_pri", "stackc_gou_w1r2_bytes", "stack_get_w0r2_bytes", "stack_gou_w1r1_bytes_sec", "stack_gou_w1r1_bytes_pri_same", "stack_gou_w1r1_bytes_pri_diff", "stack_gou_w1r0_bytes_pri", "stack_gou_w1r1_sec", "readonly_builder_equiv"],
+prop("C14", ["stack_ops_glue", "stack_get_w1r2_bytes", "stack_get_w1r1_nock", "stack_ops_sanity_twin"],
+     ["stackc_get_w1r2_bytes", "stack_get_w0r2_bytes", "readonly_builder_equiv"],
      outside=["checkers other than none / byte equality (the panicking checker is the same comparison followed by expect())"], assumptions=COMMON_ASSUME)
 prop("C15", ["proto_glue", "stack_get_w1r1_nock", "stack_touch_w1r2", "plain_get_seq", "stack_ops_sanity_twin"],
-     ["stack_gou_w1r1_sec", "stack_gou_w0r1_sec", "stack_gou_w1r1_pri", "stack_get_w1r2_bytes", "stack_get_w0r2_bytes", "stack_set_w1r1", "sharded_get_01", "plain_invalid_name_dot"],
+     ["stack_get_w1r2_bytes", "stack_get_w0r2_bytes", "stack_set_w1r1", "sharded_get_01", "plain_invalid_name_dot"],
      outside=["read-only sharded levels"], assumptions=COMMON_ASSUME)
-prop("C16", ["proto_glue", "c16_validator", "c16_confinement", "plain_invalid_name_empty", "plain_invalid_name_dot", "plain_invalid_name_slash",
-             "plain_invalid_name_backslash", "c16_sanity_twin"], ["sharded_invalid_names", "plain_set_fault"],
-     outside=["names longer than 3 bytes and non-ASCII bytes (no byte >= 128 is a separator; the first-byte rule treats them as letters)",
-              "embedded NUL (rejected by std when the path is turned into a C string)"], assumptions=COMMON_ASSUME)
+prop("C16", ["proto_glue", "c16_validator", "c16_confinement", "plain_invalid_name_empty", "plain_invalid_name_dot", "plain_invalid_name_slash", "plain_invalid_name_backslash", "c16_sanity_twin"], ["sharded_invalid_names", "plain_set_fault"],
+     outside=["names longer than 3 bytes and non-ASCII bytes (no byte >= 128 is a separator; the first-byte rule treats them as letters)", "embedded NUL (rejected by std when the path is turned into a C string)"], assumptions=COMMON_ASSUME)
 prop("C17", ["raw_prune_pieces_dotfile_only", "c02_cleanup_temp_by_age", "raw_collect_a_temp", "raw_ops_sanity_twin"],
      ["raw_prune_pieces_dotfile_and_a", "raw_collect_ab_sub", "raw_apply_update_evict_a_moveback_b"],
      outside=["nested directories below the cache directory (never listed: directories are skipped)"], assumptions=COMMON_ASSUME)
-prop("C18", ["proto_glue", "stack_ops_glue", "stack_gou_glue", "stack_finalize_glue", "plain_get_fault", "plain_touch_fault", "stackc_set_temp_w1r1_fault", "plain_ops_sanity_twin"],
-     ["plain_set_fault", "plain_put_fault", "sharded_put_absent_fault", "stackc_set_w1r1_fault", "stackc_put_temp_w1r1_fault", "stackc_gou_w1r1_fault_miss", "stackc_gou_w1r1_fault_sec", "stackc_gou_w1r1_fault_pri", "stack_gou_w1r1_fault_miss", "stack_gou_w1r1_fault_sec", "stack_set_temp_w1r1_fault", "stack_set_w1r1_fault"],
-     outside=["more than one failing call per operation", "failures inside the caller's populate function other than its own error return",
-              "re-issuing the operation after the fault is covered by the fault-free harnesses starting from arbitrary valid states (C02)"],
+prop("C18", ["proto_glue", "stack_ops_glue", "stack_finalize_glue", "plain_get_fault", "plain_touch_fault", "stackc_set_temp_w1r1_fault", "plain_ops_sanity_twin"],
+     ["plain_set_fault", "plain_put_fault", "sharded_put_absent_fault", "stackc_set_w1r1_fault", "stackc_put_temp_w1r1_fault", "stack_set_temp_w1r1_fault", "stack_set_w1r1_fault"],
+     outside=["more than one failing call per operation", "failures inside the caller's populate function other than its own error return", "re-issuing the operation after the fault is covered by the fault-free harnesses starting from arbitrary valid states (C02)"],
      assumptions=COMMON_ASSUME)
-prop("C19", ["proto_glue", "stack_ops_glue", "stack_gou_glue", "stack_finalize_glue", "plain_get_seq", "stack_get_w1r1_nock", "raw_insert_or_update_basic", "stackc_set_temp_w1r1", "stack_ops_sanity_twin"],
-     ["stackc_put_temp_w1r1", "stackc_gou_w1r1_bytes", "stackc_gou_w1r1_bytes_sec", "stackc_gou_w1r1_bytes_pri_same", "stackc_gou_w1r1_miss", "stackc_gou_w1r1_sec", "stackc_gou_w1r1_pri",
-      "stack_get_w1r2_bytes", "stack_gou_w1r1_sec", "stack_gou_w1r1_pri", "stack_gou_w1r1_bytes_sec", "stack_gou_w1r1_bytes_pri_same", "stack_set_temp_w1r1", "stack_put_temp_w2r0", "stack_gou_w0r1_miss", "stack_gou_w1r1_miss", "plain_set_seq", "sharded_get_01"],
+prop("C19", ["proto_glue", "stack_ops_glue", "stack_finalize_glue", "plain_get_seq", "stack_get_w1r1_nock", "raw_insert_or_update_basic", "stackc_set_temp_w1r1", "stack_ops_sanity_twin"],
+     ["stackc_put_temp_w1r1", "stack_get_w1r2_bytes", "stack_set_temp_w1r1", "stack_put_temp_w2r0", "plain_set_seq", "sharded_get_01"],
      outside=["the no-writer miss path returns the throw-away temp file itself (read-write by construction): only its offset is checked"],
      assumptions=COMMON_ASSUME + ["the process umask only influences the initial mode of caller-supplied files, which is symbolic"])
 prop("C20", ["proto_glue", "plain_get_seq", "plain_touch_seq", "stack_get_w1r1_nock", "plain_ops_sanity_twin"],
-     ["plain_set_seq", "plain_put_seq", "sharded_get_01", "sharded_touch_01", "sharded_write_notrigger", "stack_get_w1r2_bytes", "stack_gou_w1r1_sec"],
-     outside=["the lifetime of directory streams (released inside std when the last DirEntry is dropped; not observable through the stubs)",
-              "independence from the number of entries holds because no directory listing is reachable outside maintenance (asserted)"],
+     ["plain_set_seq", "plain_put_seq", "sharded_get_01", "sharded_touch_01", "sharded_write_notrigger", "stack_get_w1r2_bytes"],
+     outside=["the lifetime of directory streams (released inside std when the last DirEntry is dropped; not observable through the stubs)", "independence from the number of entries holds because no directory listing is reachable outside maintenance (asserted)"],
      assumptions=COMMON_ASSUME)
 
 # development aggregates (not properties): run whole harness groups
